@@ -106,6 +106,9 @@ func (d *renameDetector) detectExactRenames() {
 					}
 				}
 				deletes[hash] = newDeletes
+			} else {
+				// No deletion pairs with it: it stays an addition.
+				addedLeft = append(addedLeft, c)
 			}
 		default:
 			addedLeft = append(addedLeft, c)
